@@ -26,7 +26,7 @@ func batchInvertSpec() *edt.Spec {
 		Vars: map[string]string{
 			"(φL0.0 < len(zeros(len($inputs))))": "initMore",
 			"(φL1.0 < len($inputs))":             "fwdMore",
-			"(φL2.0 < 0)":                              "bwdDone",
+			"(φL2.0 < 0)":                        "bwdDone",
 		},
 		Classify: func(p *edt.Path, out string, e *edt.Env) string {
 			switch {
@@ -70,7 +70,7 @@ func batchInvertSpec() *edt.Spec {
 				}
 				return finalsAre(p, ab, map[string]string{
 					"M<[]field.Element>#0[φL1.0]": "Element.Set(" + acc1 + ")",
-					"A<field.Element>#0":                sel("Element.Mul("+in1+", "+acc1+")", acc1, "Element.IsZero("+in1+")"),
+					"A<field.Element>#0":          sel("Element.Mul("+in1+", "+acc1+")", acc1, "Element.IsZero("+in1+")"),
 				})
 			case "backward":
 				if !has("loop L2: A<field.Element>#0 enters as Element.Invert("+acc1+")") || !has("loop L2: φL2.0 starts as (len($inputs) - 1)") {
